@@ -1,1 +1,153 @@
-//! harness bodies: net_codec
+//! harness bodies: net/codec.rs (child module of `net::codec`)
+use std::future::Future;
+use std::pin::pin;
+use std::task::{Context, Poll, Waker};
+
+use bytes::BytesMut;
+use tokio_util::codec::{Decoder, Encoder};
+
+use super::*;
+use crate::verif_incrate::src::{ck, cv, Src};
+
+fn poll_n<F: Future>(f: F, n: usize) -> Option<F::Output> {
+    let mut f = pin!(f);
+    let mut cx = Context::from_waker(Waker::noop());
+    let mut i = 0;
+    while i < n {
+        if let Poll::Ready(v) = f.as_mut().poll(&mut cx) {
+            return Some(v);
+        }
+        i += 1;
+    }
+    None
+}
+
+fn empty_message() -> crate::sync::ProtocolMessage {
+    unsafe { std::mem::transmute::<Vec<crate::ranger::MessagePart<crate::sync::SignedEntry>>, crate::sync::ProtocolMessage>(Vec::new()) }
+}
+
+fn frame(m: Message) -> Vec<u8> {
+    let mut b = BytesMut::new();
+    SyncCodec.encode(m, &mut b).unwrap();
+    b.to_vec()
+}
+
+/// C09: `SyncCodec::decode` on an arbitrary N-byte buffer: never panics; `Ok(None)` exactly when
+/// fewer than 4 + len bytes are present (and then nothing is consumed); oversized length prefixes
+/// are errors; on `Ok(Some)` exactly 4 + len bytes are consumed.
+pub fn codec_decode_total<S: Src, const N: usize>(s: &mut S) {
+    let b: [u8; N] = s.arr();
+    let mut buf = BytesMut::from(&b[..]);
+    let r = SyncCodec.decode(&mut buf);
+    let have_len = N >= 4;
+    let len = if have_len { u32::from_be_bytes([b[0], b[1], b[2], b[3]]) as usize } else { 0 };
+    match &r {
+        Ok(None) => {
+            ck!(s, !have_len || (len <= MAX_MESSAGE_SIZE && N < 4 + len), "need-more-data is reported exactly for incomplete frames");
+            ck!(s, buf.len() == N, "an incomplete frame consumes nothing");
+        }
+        Ok(Some(_)) => {
+            ck!(s, have_len && N >= 4 + len, "a message is only produced from a complete frame");
+            ck!(s, buf.len() == N - 4 - len, "a decoded frame consumes exactly 4 + len bytes");
+        }
+        Err(_) => {
+            ck!(s, have_len && (len > MAX_MESSAGE_SIZE || N >= 4 + len), "errors are reported only for oversized or complete-but-invalid frames");
+        }
+    }
+    cv!(s, N < 6 || matches!(r, Ok(Some(_))), "codec_decode_total: some buffer decodes to a message");
+    cv!(s, N < 4 || matches!(r, Err(_)), "codec_decode_total: some buffer is rejected");
+    cv!(s, matches!(r, Ok(None)), "codec_decode_total: some buffer needs more data");
+    std::mem::forget(r);
+}
+
+/// C09: the Abort frame survives encode -> decode for every split point of the byte stream.
+pub fn codec_abort_roundtrip<S: Src>(s: &mut S) {
+    let reason = match s.u8() % 3 {
+        0 => AbortReason::NotFound,
+        1 => AbortReason::AlreadySyncing,
+        _ => AbortReason::InternalServerError,
+    };
+    let bytes = frame(Message::Abort { reason });
+    let split = (s.u8() as usize) % (bytes.len() + 1);
+    let mut buf = BytesMut::from(&bytes[..split]);
+    let first = SyncCodec.decode(&mut buf);
+    if split < bytes.len() {
+        ck!(s, matches!(first, Ok(None)), "a truncated frame is reported as need-more-data, never as a bogus message");
+        buf.extend_from_slice(&bytes[split..]);
+        let second = SyncCodec.decode(&mut buf);
+        ck!(s, matches!(second, Ok(Some(Message::Abort { reason: r })) if r == reason), "the message survives encode-then-decode however the stream is chunked");
+        std::mem::forget(second);
+    } else {
+        ck!(s, matches!(first, Ok(Some(Message::Abort { reason: r })) if r == reason), "the message survives encode-then-decode");
+    }
+    ck!(s, buf.is_empty(), "nothing is left over after the frame");
+    cv!(s, split > 0 && split < 4, "codec_abort_roundtrip: split inside the length prefix");
+    std::mem::forget(first);
+}
+
+/// C10 acceptor: `BobState::run` + `into_outcome` over an in-memory frame script, with the store
+/// actor gone.  SCRIPT (concrete per instance): 0 = [Init]  1 = [Abort]  2 = [Sync]  3 = []  (early
+/// close)  4 = [Init] with the request declined by the accept callback  5 = truncated Init frame.
+/// The accepting side must return (success or a reported error), never panic, and must always be
+/// able to report its outcome.
+pub fn bob_run<S: Src, const SCRIPT: u8>(s: &mut S) {
+    let ns = NamespaceId::from(&[5u8; 32]);
+    let peer = crate::engine::verif_state::endpoint_id([6u8; 32]);
+    let mut input: Vec<u8> = Vec::new();
+    match SCRIPT {
+        0 | 4 => input.extend(frame(Message::Init { namespace: ns, message: empty_message() })),
+        1 => input.extend(frame(Message::Abort { reason: AbortReason::NotFound })),
+        2 => input.extend(frame(Message::Sync(empty_message()))),
+        5 => {
+            let f = frame(Message::Init { namespace: ns, message: empty_message() });
+            input.extend(&f[..f.len() - 1]);
+        }
+        _ => {}
+    }
+    let decline = SCRIPT == 4;
+    // never dropped (its `Drop` expects a join handle), also not while unwinding in a native replay
+    let handle = std::mem::ManuallyDrop::new(crate::actor::verif_incrate::disconnected_handle());
+    let mut state = BobState::new(peer);
+    let mut out: Vec<u8> = Vec::new();
+    let res = poll_n(
+        state.run(&mut out, &input[..], (*handle).clone(), |_ns, _peer| {
+            std::future::ready(if decline { AcceptOutcome::Reject(AbortReason::AlreadySyncing) } else { AcceptOutcome::Allow })
+        }),
+        4,
+    );
+    let Some(res) = res else {
+        ck!(s, false, "the accepting side never waits forever (nothing is pending: the reader is exhausted and the actor is gone)");
+        return;
+    };
+    cv!(s, res.is_err(), "bob_run: the session ends with a reported error");
+    if decline {
+        ck!(s, matches!(res, Err(AcceptError::Abort { .. })), "a declined request is reported as aborted by us");
+        ck!(s, out == frame(Message::Abort { reason: AbortReason::AlreadySyncing }), "declining writes exactly one Abort frame");
+    }
+    // net.rs `handle_connection` asks for the outcome unconditionally after `run` returned
+    let _outcome = state.into_outcome();
+    ck!(s, true, "the accepting side can always report its outcome");
+    std::mem::forget(res);
+}
+
+// --- ICE bisection probes (development only) ---
+pub fn probe_handle<S: Src>(s: &mut S) {
+    let handle = crate::actor::verif_incrate::disconnected_handle();
+    cv!(s, true, "probe");
+    std::mem::forget(handle);
+}
+pub fn probe_send<S: Src>(s: &mut S) {
+    let handle = crate::actor::verif_incrate::disconnected_handle();
+    let r = poll_n(handle.sync_initial_message(NamespaceId::from(&[5u8; 32])), 2);
+    cv!(s, matches!(r, Some(Err(_))), "probe: request fails");
+    std::mem::forget(r);
+    std::mem::forget(handle);
+}
+pub fn probe_framed<S: Src>(s: &mut S) {
+    use tokio_stream::StreamExt;
+    let input = frame(Message::Abort { reason: AbortReason::NotFound });
+    let mut reader = FramedRead::new(&input[..], SyncCodec);
+    let r = poll_n(reader.next(), 2);
+    cv!(s, matches!(r, Some(Some(Ok(Message::Abort { .. })))), "probe: frame read");
+    std::mem::forget(r);
+}
